@@ -1594,11 +1594,15 @@ class BDD(dd._abc.BDD[_Ref]):
                 f'node index {u} '
                 'is already used. '
                 f'{self._succ = }')
+        # find the next free integer before
+        # adding the node, so that a full table
+        # leaves the manager unchanged
+        min_free = self._next_free_int(u + 1)
         # add node
         self._pred[t] = u
         self._succ[u] = t
         self._ref[u] = 0
-        self._min_free = self._next_free_int(u)
+        self._min_free = min_free
         # increment reference counters
         self.incref(v)
         self.incref(w)
